@@ -4,7 +4,7 @@ CONSTANTS
   ReqY = {TRUE, FALSE}
   MaxLen = 4
   MaxGen = 2
-  Ops = {"KX", "KY", "S", "SR", "SC", "BYE", "CL", "RcR", "RcC", "RvR", "RfR", "RvC", "RfC", "BX", "BY", "B0"}
+  Ops = {"KX", "KY", "S", "SR", "SC", "BYE", "CL", "RcR", "RcC", "RvR", "RfR", "RvC", "RfC", "BX", "BY", "BV", "B0"}
   Reps = {1}
   Deviations = {}
 INVARIANTS TypeOK NoClearEgress NothingBeforeKeys NoClearIngress AllowedSound NoReplay
